@@ -156,6 +156,12 @@ def stepLine (s : DState) (w : List String) : DState × String :=
       (s, s!"eq={if e then 1 else 0} ne={if n then 1 else 0}")
     else (s, "bad-op")
   | ["pk", "show", a] => if has s.pkts a then (s, showPacket (lookup s.pkts a)) else (s, "bad-op")
+  | ["pk", "rawhdr", a] =>
+    if has s.pkts a && (lookup s.pkts a).payload.isSome then
+      let p := lookup s.pkts a
+      (s, "cmp=" ++ showBytes (frameHeader (p.version % 256) p.deviceId p.mt p.streamId p.seq) ++
+          " msg=" ++ showBytes (msgHeader p (p.flags % 256 &&& 0x0C) p.payloadLength))
+    else (s, "bad-op")
   | ["pk", "set", a, f, v] =>
     if has s.pkts a then
       match setPacketField (lookup s.pkts a) f (nat! v) with
@@ -215,9 +221,11 @@ def stepLine (s : DState) (w : List String) : DState × String :=
     | ["stream", n] => ({ s with encs := upsert s.encs e { slot with enc := slot.enc.setStream (nat! n) } }, "ok")
     | ["restart"] => ({ s with encs := upsert s.encs e { slot with enc := slot.enc.restart } }, "ok")
     | ["seq"] => (s, s!"seq {slot.enc.seqc}")
-    | "encode" :: mn :: mx :: ids =>
+    | kind :: mn :: mx :: ids =>
       let c : Ctx := ⟨nat! mn, nat! mx⟩
-      if !c.ok then (s, "bad-ctx")
+      if kind != "encode" && kind != "encodep" && kind != "encode1" then (s, "bad-op")
+      else if kind == "encode1" && ids.length != 1 then (s, if c.ok then "bad-batch" else "bad-ctx")
+      else if !c.ok then (s, "bad-ctx")
       else
         let batch := ids.map (lookup s.pkts)
         if batch.any (fun p => p.payload.isNone) then (s, "bad-batch")
